@@ -92,6 +92,15 @@ def run_C16(seed, tier):
             derives = rng.choice(['-', '-', 'Debug,Clone,PartialEq', 'Clone,Debug'])
             prefix = rng.choice(['', 'use a;', 'use a;\nuse b;\n', '// generated\n'])
             cases.append((rules, derives, prefix))
+        # two fixed grammars that both use `>Header`, declared at different positions: compiled one after the other in one
+        # process by the library route, each in its own process by the command-line tool (per-process state must not leak)
+        FH = lambda n_, t_: ('field', n_, False, t_)
+        hdr = dict(kind='rule', dirs=[], name='Header', body=gen.choice(gen.seq(gen.lit('v'), FH('version', 'Num'))))
+        num = dict(kind='rule', dirs=['string'], name='Num', body=gen.choice(gen.seq(('plus', gen.choice(gen.seq(('range', gen.C('0'), gen.C('9'))))))))
+        alpha = [dict(kind='rule', dirs=['export'], name='Config', body=gen.choice(gen.seq(('incl', 'Header'), gen.lit(';')))), hdr, num]
+        beta = [dict(kind='rule', dirs=['export'], name='Config', body=gen.choice(gen.seq(('incl', 'Header'), gen.lit('!')))),
+                dict(kind='rule', dirs=[], name='Pair', body=gen.choice(gen.seq(FH('key', 'Num'), gen.lit('='), FH('value', 'Num')))), hdr, num]
+        cases = [(alpha, '-', ''), (beta, '-', ''), (alpha, '-', '')] + cases
         # library route, three fresh processes
         outs = []
         for rep in range(3):
